@@ -118,6 +118,20 @@ def run(ck):
         vals = [rng.randint(1, 30) for _ in range(n)]
         groups.append(agree_group(vals, k, rng, ilp=(not q and i % 10 == 0)))
         ck.cat("agreement_groups")
+    # WIDE values: with values up to a few thousand the dynamic program holds hundreds of thousands of distinct states (a cap on the states kept, or any
+    # other size-dependent shortcut, only shows here); one dp call takes about half a minute, so only a handful
+    for i in range(3 if q else 24):
+        k, n = (3, 13) if i % 3 != 2 else (4, 10)
+        vals = [rng.randint(20, 2000) for _ in range(n)]
+        if i % 2 == 0:
+            vals.sort()
+        evs = []
+        for o in (("diff",) if q else ("diff", "minsum", "maxsum")):
+            evs.append(dict(alg="cg", o=o, kp=0, sw=sw_dict("1101"), swc="1101", kind="part", var="agree", vals=vals, k=k))
+            evs.append(dict(alg="dp", o=o, kp=0, kind="part", var="agree", vals=vals, k=k))
+        evs += [dict(alg=a, o="diff", kp=0, kind="part", var="agree", vals=vals, k=k) for a in ("snp", "rnp")]
+        groups.append({"base": {"vals": vals, "k": k}, "events": evs, "watchdog": 240})
+        ck.cat("wide_value_agreement_groups")
     for kf in ck.known:      # every known finding's witness is re-executed on every run
         w = kf.get("witness")
         if kf.get("status") == "known" and w and w.get("kind") == "meta":
